@@ -48,6 +48,8 @@ func (ws *WritingState) IsActive() bool {
 func (ws *WritingState) ComputeState() *WritingState {
 	ws.Lock()
 	defer ws.Unlock()
+	verifAccess("sync:ws", false)
+	defer verifAccess("sync:ws", true)
 	var copyState WritingState
 	copyState.Active = ws.Active
 	copyState.Paused = ws.Paused
